@@ -452,6 +452,9 @@ CONN_BODIES = [
     "connection.py:Connection:com_stmt_prepare_response", "connection.py:Connection:deprecate_eof",
     "stream.py:MysqlStream:write", "stream.py:MysqlStream:drain", "stream.py:MysqlStream:reset_seq",
     "utils.py::cooperative_iterate", "utils.py::aiterate", "constants.py::=DEFAULT_SERVER_CAPABILITIES", "packets.py::make_column_count",
+    "packets.py::make_ok", "packets.py::make_eof", "packets.py::make_error", "packets.py::make_column_definition_41", "packets.py::make_handshake_v10",
+    "types.py::str_fixed", "types.py::str_null", "types.py::str_len", "types.py::str_rest", "types.py::uint_1", "types.py::uint_2", "types.py::uint_4",
+    "errors.py::get_sqlstate",
     "server.py:MysqlServer:_client_connected_cb",
 ]
 
